@@ -449,6 +449,346 @@ theorem C19_hash_respects_eq_tag (a b : Tag) (h : key a = key b) :
     a.hashKey = b.hashKey ∧ a.term.hashKey = b.term.hashKey := by
   rw [key_inj.mp h]; exact ⟨rfl, rfl⟩
 
+
+/-! ### review additions: the three encodings over any `Encoder` -/
+
+/-- the result of the first element the encoder does not skip -/
+theorem C19_generic_classification {α} (enc : α → Option Int) (tags : List α) :
+    classificationG enc tags = (tags.find? (fun t => (enc t).isSome)).bind enc := by
+  induction tags with
+  | nil => rfl
+  | cons t ts ih =>
+    simp only [classificationG, List.find?_cons]
+    cases he : enc t with
+    | none => simp [ih]
+    | some i => simp [he]
+
+/-- the fill loops raise (`IndexError`) exactly when some element is given an index outside `[-n, n)` -/
+theorem C19_generic_fill_error_iff {α β} (enc : α → Option Int) (val : α → β) (n : Nat) (zero : β) (xs : List α) :
+    fillG enc val n zero xs = none ↔ ∃ x ∈ xs, ∃ i, enc x = some i ∧ (i < -(n : Int) ∨ (n : Int) ≤ i) := by
+  unfold fillG
+  rw [fillM_eq]
+  simp only [List.length_replicate]
+  constructor
+  · intro h
+    split at h
+    · rename_i hany
+      obtain ⟨x, hx, ho⟩ := List.any_eq_true.mp hany
+      refine ⟨x, hx, ?_⟩
+      unfold oor at ho
+      cases he : enc x with
+      | none => simp [he] at ho
+      | some i =>
+        rw [he] at ho
+        exact ⟨i, rfl, (normIdx_none_iff n i).mp (by simpa using ho)⟩
+    · cases h
+  · rintro ⟨x, hx, i, he, hi⟩
+    have : xs.any (oor enc n) = true :=
+      List.any_eq_true.mpr ⟨x, hx, by simp [oor, he, (normIdx_none_iff n i).mpr hi]⟩
+    simp [this]
+
+/-- when they do not raise, the vector has `n` entries and entry `k` holds the value of the last
+    element stored at position `k` (numpy index rule), the initial value if there is none -/
+theorem C19_generic_fill_get {α β} (enc : α → Option Int) (val : α → β) (n : Nat) (zero : β) (xs : List α)
+    (out : List β) (h : fillG enc val n zero xs = some out) :
+    out.length = n ∧ ∀ k, k < n → out[k]? =
+      some (match lastWhere (fun x => slot enc n x == some k) xs with
+            | some x => val x
+            | none => zero) := by
+  unfold fillG at h
+  rw [fillM_eq] at h
+  simp only [List.length_replicate] at h
+  split at h
+  · cases h
+  · simp only [Option.some.injEq] at h
+    subst h
+    refine ⟨by simp [fill_length], fun k hk => ?_⟩
+    rw [fill_get _ _ _ _ _ (by simpa using hk)]
+    cases lastWhere (fun x => slot enc n x == some k) xs <;> simp [hk]
+
+/-- the multilabel vector over any encoder: entry `k` is 1 iff some tag is stored at `k` -/
+theorem C19_generic_multilabel {α} (enc : α → Option Int) (n : Nat) (tags : List α) (out : List Nat)
+    (h : multilabelG enc n tags = some out) (k : Nat) (hk : k < n) :
+    out[k]? = some (if ∃ t ∈ tags, slot enc n t = some k then 1 else 0) := by
+  rw [(C19_generic_fill_get enc _ n 0 tags out h).2 k hk]
+  cases hl : lastWhere (fun x => slot enc n x == some k) tags with
+  | none =>
+    have := lastWhere_none.mp hl
+    have hno : ¬ ∃ t ∈ tags, slot enc n t = some k := by
+      rintro ⟨t, ht, he⟩; simpa [he] using this t ht
+    simp [hno]
+  | some x =>
+    have := lastWhere_some_mem hl
+    have hyes : ∃ t ∈ tags, slot enc n t = some k := ⟨x, this.1, by simpa using this.2⟩
+    simp [hyes]
+
+/-- elements the encoder skips never influence a result (any encoder) -/
+theorem C19_generic_skip {α β} (enc : α → Option Int) (val : α → β) (n : Nat) (zero : β) (xs : List α) :
+    classificationG enc (xs.filter fun x => (enc x).isSome) = classificationG enc xs ∧
+    fillG enc val n zero (xs.filter fun x => (enc x).isSome) = fillG enc val n zero xs := by
+  constructor
+  · induction xs with
+    | nil => rfl
+    | cons x xs ih =>
+      cases he : enc x with
+      | none => simp [he, classificationG, ih]
+      | some i => simp [he, classificationG]
+  · unfold fillG
+    generalize List.replicate n zero = init
+    induction xs generalizing init with
+    | nil => rfl
+    | cons x xs ih =>
+      cases he : enc x with
+      | none =>
+        simp only [List.filter_cons, he, Option.isSome_none, Bool.false_eq_true, if_false, List.foldlM_cons, storeI]
+        exact ih init
+      | some i =>
+        simp only [List.filter_cons, he, Option.isSome_some, if_true, List.foldlM_cons]
+        cases storeI init (some i) (val x) with
+        | none => rfl
+        | some a => simp [ih]
+
+theorem slot_encodeI (vocab : List Tag) (t : Tag) : slot (encodeI vocab) vocab.length t = encode vocab t := by
+  unfold slot encodeI
+  cases he : encode vocab t with
+  | none => rfl
+  | some i =>
+    have := C19_encode_lt vocab t i he
+    unfold numClasses at this
+    simp [normIdx, this]
+
+theorem oor_encodeI (vocab : List Tag) (t : Tag) : oor (encodeI vocab) vocab.length t = false := by
+  have := slot_encodeI vocab t
+  unfold slot at this
+  unfold oor
+  cases he : encodeI vocab t with
+  | none => rfl
+  | some i =>
+    rw [he] at this
+    cases hn : normIdx vocab.length i with
+    | some k => simp [hn]
+    | none =>
+      simp only [hn, Option.bind_some] at this
+      unfold encodeI at he
+      cases h2 : encode vocab t with
+      | none => simp [h2] at he
+      | some j => rw [h2] at this; cases this
+
+/-- `SimpleEncoder` is one instance: through the generic functions it gives the vocabulary
+    encodings of the first half of this file, and never raises -/
+theorem C19_simple_is_generic (cast : Rat → Rat) (vocab tags : List Tag) (preds : List PredictedTag) :
+    classificationG (encodeI vocab) tags = (classificationEncoding vocab tags).map Int.ofNat ∧
+    multilabelG (encodeI vocab) vocab.length tags = some (multilabelEncoding vocab tags) ∧
+    predictionG cast (fun p => encodeI vocab p.tag) (·.score) vocab.length preds
+      = some (predictionEncoding cast vocab preds) := by
+  refine ⟨?_, ?_, ?_⟩
+  · induction tags with
+    | nil => rfl
+    | cons t ts ih =>
+      simp only [classificationG, classificationEncoding, encodeI]
+      cases encode vocab t with
+      | none => simpa using ih
+      | some i => simp
+  · unfold multilabelG fillG multilabelEncoding
+    rw [fillM_eq]
+    simp only [List.length_replicate]
+    have : tags.any (oor (encodeI vocab) vocab.length) = false := by
+      simp [oor_encodeI]
+    simp only [this, Bool.false_eq_true, if_false, slot_encodeI]
+  · unfold predictionG fillG predictionEncoding
+    rw [fillM_eq]
+    simp only [List.length_replicate]
+    have h1 : ∀ p : PredictedTag, oor (fun p : PredictedTag => encodeI vocab p.tag) vocab.length p = false := by
+      intro p; exact oor_encodeI vocab p.tag
+    have h2 : ∀ p : PredictedTag, slot (fun p : PredictedTag => encodeI vocab p.tag) vocab.length p = encode vocab p.tag := by
+      intro p; exact slot_encodeI vocab p.tag
+    have : preds.any (oor (fun p : PredictedTag => encodeI vocab p.tag) vocab.length) = false := by
+      simp [h1]
+    simp only [this, Bool.false_eq_true, if_false, h2]
+
+/-! ### review additions: `decode` for any Python integer -/
+
+theorem C19_decodeI_nonneg (vocab : List Tag) (i : Nat) : decodeI vocab (i : Int) = decode vocab i := by
+  unfold decodeI decode
+  rw [normIdx_ofNat]
+  by_cases h : i < vocab.length
+  · simp [h]
+  · simp [h]
+
+/-- a negative index counts from the end -/
+theorem C19_decodeI_neg (vocab : List Tag) (k : Nat) (h0 : 0 < k) (hk : k ≤ vocab.length) :
+    decodeI vocab (-(k : Int)) = vocab[vocab.length - k]? := by
+  unfold decodeI
+  rw [normIdx_neg _ _ h0 hk]; rfl
+
+/-- `IndexError` exactly outside `[-n, n)` -/
+theorem C19_decodeI_none_iff (vocab : List Tag) (i : Int) :
+    decodeI vocab i = none ↔ i < -(vocab.length : Int) ∨ (vocab.length : Int) ≤ i := by
+  unfold decodeI
+  rw [← normIdx_none_iff]
+  cases hn : normIdx vocab.length i with
+  | none => simp
+  | some k =>
+    have := normIdx_lt hn
+    simp [List.getElem?_eq_getElem this]
+
+
+/-! ### review additions: `find_tag` / `find_feature` -/
+
+/-- with a term given: the first element whose term equals it (the label is not looked at),
+    else the default -/
+theorem C19_find_by_term {α} (termOf : α → Term) (xs : List α) (label : Option String) (tm : Term)
+    (default : Option α) :
+    findBy termOf xs label (some tm) default = some ((xs.find? fun x => termOf x = tm).or default) := rfl
+
+/-- with only a label given: the first element whose term carries that label, else the default -/
+theorem C19_find_by_label {α} (termOf : α → Term) (xs : List α) (l : String) (default : Option α) :
+    findBy termOf xs (some l) none default = some ((xs.find? fun x => (termOf x).label = l).or default) := rfl
+
+/-- `ValueError` exactly when neither is given -/
+theorem C19_find_by_error_iff {α} (termOf : α → Term) (xs : List α) (label : Option String) (term : Option Term)
+    (default : Option α) : findBy termOf xs label term default = none ↔ label = none ∧ term = none := by
+  unfold findBy
+  cases term <;> cases label <;> simp
+
+/-- first-match semantics, spelled out: the answer `xs[i]` matches and nothing before it does;
+    the default is returned only when nothing matches -/
+theorem C19_find_by_first {α} (termOf : α → Term) (xs : List α) (label : Option String) (tm : Term)
+    (default r : Option α) (h : findBy termOf xs label (some tm) default = some r) :
+    (∃ i x, xs[i]? = some x ∧ r = some x ∧ termOf x = tm ∧ ∀ j : Nat, j < i → ∀ y, xs[j]? = some y → termOf y ≠ tm) ∨
+    ((∀ x ∈ xs, termOf x ≠ tm) ∧ r = default) := by
+  simp only [findBy, Option.some.injEq] at h
+  subst h
+  cases hf : xs.find? (fun x => termOf x = tm) with
+  | none =>
+    right
+    refine ⟨fun x hx => ?_, by simp⟩
+    simpa using (List.find?_eq_none.mp hf) x hx
+  | some x =>
+    left
+    obtain ⟨hp, i, hi, hx, hbefore⟩ := List.find?_eq_some_iff_getElem.mp hf
+    refine ⟨i, x, by simp [hi, hx], by simp, by simpa using hp, ?_⟩
+    intro j hj y hy
+    have hjl : j < xs.length := by omega
+    have := hbefore j hj
+    rw [List.getElem?_eq_getElem hjl] at hy
+    cases hy
+    simpa using this
+
+/-! ### review additions: the deprecated `key=` / `name=` construction path -/
+
+theorem C19_key_of_term_from_key (k : String) : keyFromTerm (termFromKey k) = k := rfl
+
+theorem C19_term_from_key_inj (a b : String) : termFromKey a = termFromKey b ↔ a = b := by
+  constructor
+  · intro h; exact congrArg Term.label h
+  · rintro rfl; rfl
+
+/-- a given term wins over the key; the key alone stands for `term_from_key key` -/
+theorem C19_tag_init (key : Option String) (term : Option Term) (value : String) :
+    (∀ tm, term = some tm → tagInit key term value = some ⟨tm, value⟩) ∧
+    (∀ k, term = none → key = some k → tagInit key term value = some ⟨termFromKey k, value⟩) ∧
+    (tagInit key term value = none ↔ term = none ∧ key = none) := by
+  refine ⟨?_, ?_, ?_⟩
+  · rintro tm rfl; rfl
+  · rintro k rfl rfl; rfl
+  · cases term <;> cases key <;> simp [tagInit]
+
+theorem C19_feature_init (name : Option String) (term : Option Term) (value : Rat) :
+    (∀ tm, term = some tm → featureInit name term value = some ⟨tm, value⟩) ∧
+    (∀ k, term = none → name = some k → featureInit name term value = some ⟨termFromKey k, value⟩) ∧
+    (featureInit name term value = none ↔ term = none ∧ name = none) := by
+  refine ⟨?_, ?_, ?_⟩
+  · rintro tm rfl; rfl
+  · rintro k rfl rfl; rfl
+  · cases term <;> cases name <;> simp [featureInit]
+
+/-- tags made from keys are equal iff key and value are, whichever way they were built, and
+    then hash alike; so a vocabulary of distinct (key, value) pairs is a vocabulary of distinct tags -/
+theorem C19_key_tags_faithful (k k' v v' : String) :
+    (tagInit (some k) none v = tagInit none (some (termFromKey k')) v' ↔ k = k' ∧ v = v') ∧
+    (tagInit (some k) none v = tagInit (some k') none v' ↔ k = k' ∧ v = v') ∧
+    ((tagInit (some k) none v).map Tag.hashKey = some ("soundevent:" ++ k, v)) := by
+  refine ⟨?_, ?_, rfl⟩ <;>
+  · simp only [tagInit, Option.map_some, Option.some.injEq, Tag.mk.injEq, C19_term_from_key_inj]
+
+theorem C19_key_vocab_nodup (kvs : List (String × String)) (h : kvs.Nodup) :
+    (kvs.map fun kv => (⟨termFromKey kv.1, kv.2⟩ : Tag)).Nodup := by
+  unfold List.Nodup at *
+  refine List.Pairwise.map _ ?_ h
+  intro a b hne hab
+  simp only [Tag.mk.injEq, C19_term_from_key_inj] at hab
+  exact hne (Prod.ext hab.1 hab.2)
+
+
+/-! ### review additions: equal keys with equal hashes make a hash table an association list -/
+
+/-- **equal objects hash equally ⇒ dictionaries and sets keyed by them are sound**: if `==`-equal
+    keys have equal hashes, a dictionary filled through the hash table answers every lookup as the
+    plain association list under `==` does, and set membership is `any (== x)` -/
+theorem C19_hashdict_sound {ρ} (eqv : ρ → ρ → Bool) (h : ρ → Int) (hc : ∀ a b, eqv a b = true → h a = h b)
+    (keys : List ρ) (k : ρ) :
+    hdGet eqv h (hdBuild eqv h [] 0 keys) k = adGet eqv (adBuild eqv [] 0 keys) k ∧
+    hsMem eqv h keys k = keys.any (eqv · k) := by
+  refine ⟨?_, ?_⟩
+  · rw [hdBuild_eq_adBuild eqv h hc, (hd_eq_ad eqv h hc _ k).2]
+  · unfold hsMem
+    congr 1
+    funext x
+    cases he : eqv x k with
+    | false => simp
+    | true => simp [hc x k he]
+
+/-- the converse is what goes wrong otherwise: a key that is `==` to a stored one but hashes
+    differently is not found -/
+theorem C19_hashdict_needs_contract {ρ ν} (eqv : ρ → ρ → Bool) (h : ρ → Int) (a b : ρ) (v : ν)
+    (hne : h a ≠ h b) : hdGet eqv h [(a, v)] b = none ∧ hsMem eqv h [a] b = false := by
+  simp [hdGet, hsMem, hne]
+
+/-- the encoder of the model *is* the hash table of the code, whatever the hash function of the
+    keys (structural `==` of the key tuples: every hash function respects it) -/
+theorem C19_encoder_on_hash_table (h : Term × String → Int) (vocab : List Tag) (t : Tag) :
+    hdGet (fun a b => decide (a = b)) h (hdBuild (fun a b => decide (a = b)) h [] 0 (vocab.map key)) (key t)
+      = encode vocab t := by
+  rw [(C19_hashdict_sound (fun a b => decide (a = b)) h (by intro a b hab; simp at hab; rw [hab]) _ _).1,
+    adBuild_eq_buildFrom, adGet_eq_dictGet]
+  rfl
+
+/-! ### review additions: Python's `==` on raw values, and the hand-written hashes -/
+
+/-- Python's `==` on raw values (an `int` equals the `float` of the same value, `0.0 == -0.0`) is
+    equality of the canonical trees: the harness may compare canonical trees -/
+theorem C19_pyeq_canonical (a b : PyVal) : PyVal.beq a b = true ↔ a.canon = b.canon := by
+  rw [pybeq_canon, C19_eq_structural]
+
+/-- … hence an equivalence relation -/
+theorem C19_pyeq_equivalence :
+    (∀ a, PyVal.beq a a = true) ∧ (∀ a b, PyVal.beq a b = true → PyVal.beq b a = true) ∧
+    (∀ a b c, PyVal.beq a b = true → PyVal.beq b c = true → PyVal.beq a c = true) := by
+  refine ⟨fun a => (C19_pyeq_canonical a a).mpr rfl,
+    fun a b h => (C19_pyeq_canonical b a).mpr ((C19_pyeq_canonical a b).mp h).symm,
+    fun a b c h1 h2 => (C19_pyeq_canonical a c).mpr
+      (((C19_pyeq_canonical a b).mp h1).trans ((C19_pyeq_canonical b c).mp h2))⟩
+
+/-- **equal objects hash equally**, on raw Python values that `==` identifies although they are
+    different objects (`1` and `1.0`, `0.0` and `-0.0`, inside any of the eight classes): for any
+    primitive hash functions that agree on integral floats (CPython's numeric hash invariant) and
+    any way of combining field hashes, `a == b` implies `hash(a) == hash(b)` (also: both unhashable) -/
+theorem C19_pyhash_respects_eq (hf : String → Option (List String)) (H : PyHasher)
+    (hfi : ∀ n : Int, H.float n = H.int n) (a b : PyVal)
+    (h : PyVal.beq a b = true) : pyHash hf H a = pyHash hf H b := pyhash_respects hf H hfi a b h
+
+/-- what a hand-written hash reads: two objects of a class that agree (`==`) on the hashed fields
+    hash alike, whatever their other fields hold -/
+theorem C19_pyhash_reads_only (hf : String → Option (List String)) (H : PyHasher) (cls : String)
+    (names : List String) (vals vals' : List PyVal) (fs : List String) (hfs : hf cls = some fs)
+    (hagree : ∀ f ∈ fs, ((names.zip (pyHashList hf H vals)).lookup f) = ((names.zip (pyHashList hf H vals')).lookup f)) :
+    pyHash hf H (.obj cls names vals) = pyHash hf H (.obj cls names vals') := by
+  simp only [pyHash, hfs]
+  congr 2
+  exact List.map_congr_left fun f hfm => by rw [hagree f hfm]
+
+
 /-! ### non-vacuity -/
 section Examples
 def tm (label name : String) : Term :=
@@ -475,6 +815,65 @@ example : (hashKey (.obj "Tag" ["term", "value"] [.obj "Term" ["label", "name"] 
     (Val.beqList [.str "n", .str "v"]) = some true := by decide
 example : (HashRow.mk "Term" ["label", "definition", "name"] ["name"]).wellFormed = true := by decide
 example : (HashRow.mk "Term" ["label"] ["name"]).wellFormed = false := by decide
+
+-- review additions
+/-- an encoder that is not a vocabulary: many-to-one, a negative index, an index out of range -/
+def encEx : Nat → Option Int
+  | 0 => some 0
+  | 1 => some (-1)
+  | 2 => some 0
+  | 3 => some 5
+  | _ => none
+example : classificationG encEx [7, 1, 0] = some (-1) := by decide
+example : multilabelG encEx 3 [0, 9, 1] = some [1, 0, 1] := by decide
+example : multilabelG encEx 3 [0, 3] = none := by decide       -- IndexError
+example : ∃ x ∈ [0, 3], ∃ i, encEx x = some i ∧ (i < -((3 : Nat) : Int) ∨ ((3 : Nat) : Int) ≤ i) :=
+  ⟨3, by decide, 5, rfl, by decide⟩
+example : predictionG id encEx (fun _ => 1/2) 2 [9, 2] = some [1/2, 0] := by decide +kernel
+example : slot encEx 3 1 = some 2 ∧ slot encEx 3 9 = none ∧ oor encEx 3 3 = true := by decide
+example : decodeI [dog, brown] (-1) = some brown ∧ decodeI [dog, brown] 2 = none ∧
+    decodeI [dog, brown] (-3) = none ∧ decodeI [dog, brown] 0 = some dog := by decide
+example : findTag [dog, cat, brown] (some "colour") (some (tm "animal" "a:animal")) none = some (some dog) := by decide
+example : findTag [dog, cat, brown] (some "colour") none none = some (some brown) := by decide
+example : findTag [dog] (some "zz") none (some cat) = some (some cat) := by decide
+example : findTag [dog] none none (some cat) = none := by decide
+example : findFeature [⟨tm "a" "n", 1⟩, ⟨tm "a" "m", 2⟩] (some "a") (some (tm "a" "m")) none
+    = some (some ⟨tm "a" "m", 2⟩) := by decide +kernel
+example : tagInit (some "animal") none "dog" = some ⟨termFromKey "animal", "dog"⟩ ∧
+    tagInit (some "animal") (some (tm "l" "n")) "dog" = some ⟨tm "l" "n", "dog"⟩ ∧
+    tagInit none none "dog" = none := by decide
+example : [("animal", "dog"), ("animal", "cat"), ("color", "dog")].Nodup := by decide
+-- a hash that reads something `==` ignores: the equal key is not found
+example : hdGet (fun (a b : Nat × Nat) => a.1 == b.1) (fun a => (a.2 : Int)) [((1, 0), 7)] (1, 1) = none ∧
+    adGet (fun (a b : Nat × Nat) => a.1 == b.1) [((1, 0), 7)] (1, 1) = some 7 := by decide
+-- … and one that respects `==` although `==` is coarser than identity
+example : ∀ a b : Nat × Nat, (a.1 == b.1) = true → ((a.1 : Int)) = (b.1 : Int) := by
+  intro a b h; simp at h; rw [h]
+def featI : PyVal := .obj "Feature" ["term", "value"] [.obj "Term" ["label", "name"] [.str "l", .str "n"], .int 1]
+def featF : PyVal := .obj "Feature" ["term", "value"] [.obj "Term" ["label", "name"] [.str "L", .str "n"], .float 1 false]
+def featG : PyVal := .obj "Feature" ["term", "value"] [.obj "Term" ["label", "name"] [.str "l", .str "n"], .float 1 false]
+example : PyVal.beq featI featG = true := by decide +kernel
+example : PyVal.beq featI featF = false := by decide +kernel
+example : PyVal.beq (.float 0 true) (.float 0 false) = true ∧ PyVal.beq (.int 0) (.float 0 true) = true := by
+  decide +kernel
+example (H : PyHasher) :
+    pyHash hashFields H featI = some (H.combine "Feature" [H.combine "Term" [H.str "n"], H.int 1]) := rfl
+-- the hash does not read the label: unequal objects may collide, equal ones must
+example (H : PyHasher) :
+    pyHash hashFields H featF = some (H.combine "Feature" [H.combine "Term" [H.str "n"], H.float 1]) := rfl
+example (H : PyHasher) (hfi : ∀ n : Int, H.float n = H.int n) : pyHash hashFields H featI = pyHash hashFields H featF := by
+  have h1 : H.float 1 = H.int 1 := by simpa using hfi 1
+  show some (H.combine "Feature" [H.combine "Term" [H.str "n"], H.int 1])
+    = some (H.combine "Feature" [H.combine "Term" [H.str "n"], H.float 1])
+  rw [h1]
+example (H : PyHasher) : pyHash hashFields H (.obj "Recording" ["uuid"] [.str "u"]) = none := rfl
+example (H : PyHasher) : pyHash hashFields H (.list []) = none := rfl
+-- the table the check extracts, as it instantiates the theorem
+example : tableOf [("Term", ["name"]), ("Tag", ["term", "value"])] "Tag" = hashFields "Tag" := by decide
+example (H : PyHasher) (hfi : ∀ n : Int, H.float n = H.int n) :
+    pyHash (tableOf [("Term", ["name"]), ("Feature", ["term", "value"])]) H featI
+      = pyHash (tableOf [("Term", ["name"]), ("Feature", ["term", "value"])]) H featG :=
+  C19_pyhash_respects_eq _ H hfi featI featG (by decide +kernel)
 end Examples
 
 end SE.Proofs.C19
